@@ -131,8 +131,8 @@ func runMem(c MemCase, x *h.Ctx) {
 
 	labels := map[string]bool{}
 	nt := false
-	var fifo []int             // held txs, submission order
-	held := map[int]bool{}     // alphabet index -> held
+	var fifo []int              // held txs, submission order
+	held := map[int]bool{}      // alphabet index -> held
 	committed := map[int]bool{} // contained in a committed block and not resubmitted since
 	var lastReap []int
 	height := int64(0)
